@@ -13,7 +13,7 @@ def run(tier, seed):
     rep.assumptions += [
         'domain = instants whose local time stays a day away from +-2^31 (README limit); the rest is counted as outside_documented_domain_not_judged and belongs to C09',
         'database zones are visited on a %s grid (seed-rotated phase) plus t-2..t+2 s around every zic transition, through direct and manager-created TimeZone values of both kinds; expected offsets come from the C01/C02 oracle tables' % ('1 h' if tier == 'thorough' else '6 h'),
-        'thorough: every int32 epoch second for 12 fixed offsets (round trips, Unix variants, epoch days on every second; conversions and comparisons on every 61st); quick: 137 offsets on a strided grid plus boundary windows',
+        'thorough: every int32 epoch second for 12 fixed offsets (round trips, Unix variants, epoch days on every second; conversions and comparisons on every 61st); quick: 137 offsets on a strided grid, every UTC and local midnight +-1 s, plus boundary windows',
     ]
     return rep.finish(exhaustive=(tier == 'thorough'), extra={
         'evaluations': c.get('instants', 0), 'distinct_nontrivial': c.get('zone_kind_pairs', 0) + c.get('fixed_offsets', 0),
